@@ -364,7 +364,7 @@ func (c *Tree) Get(ctx context.Context, key interface{}, value interface{}) (boo
 	if err != nil || !contains {
 		return false, err
 	}
-	if cv.TombstoneSinceEpochNanos > 0 {
+	if cv.TombstoneSinceEpochNanos != 0 {
 		return false, nil
 	}
 	if cvp, ok := value.(*crdt.Value); ok {
